@@ -142,16 +142,32 @@ func TestVerifC02TLS(t *testing.T) {
 		fixed = append(fixed, 3, 4, 1191, 1192, 1193, 16383, 70000)
 	}
 	r.Bounds["L"] = lengths
-	r.Bounds["write_splits"] = "whole, 1+rest, rest+1, 16384+rest, 16385+rest, thirds, 0+L+0, 1-byte writes for L<=1209"
+	r.Bounds["write_splits"] = "whole, 1+rest, rest+1, 16384+rest, 16385+rest, thirds, 0+L+0, thirds with zero-length writes between them [a,0,a,0,0,rest], 1-byte writes for L<=1209"
+	if !thorough {
+		r.Bounds["quick_reduction_zero_length_writes"] = "the split with zero-length writes in between only with short reads {unlimited,1} underneath"
+	}
 	r.Bounds["short_read_patterns(cyclic, 0=unlimited)"] = shorts
 	r.Bounds["directions"] = "client->server, server->client"
 	r.Bounds["read_after"] = "each write | last write"
 	r.Bounds["read_sizes"] = fmt.Sprintf("%v, L+1, remaining-1, remaining, remaining+1", fixed)
+	// zero-length reads (len(buf) = 0) interleaved: z(i mod n) of them before the i-th non-empty Read
+	zeroPols := []memconn.Policy{memconn.Fixed(17).WithZeros(1), memconn.Rel(-1).WithZeros(2, 0), memconn.Fixed(16384).WithZeros(0, 1)}
+	if thorough {
+		zeroPols = append(zeroPols, memconn.Fixed(1).WithZeros(1, 2), memconn.Rel(0).WithZeros(1), memconn.Fixed(1208).WithZeros(0, 0, 3))
+	}
+	var zn []string
+	for _, p := range zeroPols {
+		zn = append(zn, p.Name)
+	}
+	r.Bounds["read_sizes_with_zero_length_reads(z(i mod n) empty-buffer Reads before the i-th non-empty Read)"] = zn
 	payloads := map[string][]byte{}
 	for _, L := range lengths {
-		pols := memconn.Policies(append(append([]int{}, fixed...), L+1), []int{-1, 0, 1})
+		pols := append(memconn.Policies(append(append([]int{}, fixed...), L+1), []int{-1, 0, 1}), zeroPols...)
 		for _, sp := range memconn.Splits(L, []int{16384, 16385}, 1209) {
 			for _, short := range shorts {
+				if !thorough && sp.Name == "thirds+0s" && short[0] > 1 {
+					continue // quick: the split with zero-length writes in between only with short reads {unlimited,1}
+				}
 				for _, dir := range []string{"c2s", "s2c"} {
 					if !b.Mine(dir, sp.Sizes, short) {
 						continue
@@ -244,10 +260,12 @@ func TestVerifC02TLSTamper(t *testing.T) {
 		{"small-records", []int{1, 15, 16, 17, 40}, []memconn.Policy{memconn.Fixed(70000)}, [][]int{{1}}, []string{"c2s"}},
 		{"small-records", []int{1, 15, 16, 17, 40}, []memconn.Policy{memconn.Fixed(70000)}, [][]int{{0}}, []string{"s2c"}},
 		{"large-records", []int{10, 140000, 30000, 5}, []memconn.Policy{memconn.Fixed(70000)}, [][]int{{0}}, []string{"c2s"}},
+		// zero-length reads interleaved with the reads that meet the edited record
+		{"small-records", []int{1, 15, 16, 17, 40}, []memconn.Policy{memconn.Fixed(16).WithZeros(1)}, [][]int{{0}}, []string{"c2s"}},
 	}
 	if thorough {
 		plans = []plan{
-			{"small-records", []int{1, 15, 16, 17, 40}, []memconn.Policy{memconn.Fixed(1), memconn.Fixed(16), memconn.Fixed(70000)}, [][]int{{0}, {1}, {7}}, []string{"c2s", "s2c"}},
+			{"small-records", []int{1, 15, 16, 17, 40}, []memconn.Policy{memconn.Fixed(1), memconn.Fixed(16), memconn.Fixed(70000), memconn.Fixed(16).WithZeros(1), memconn.Fixed(70000).WithZeros(0, 1)}, [][]int{{0}, {1}, {7}}, []string{"c2s", "s2c"}},
 			{"large-records", []int{10, 140000, 30000, 5}, []memconn.Policy{memconn.Fixed(4096), memconn.Fixed(70000)}, [][]int{{0}, {7}}, []string{"c2s", "s2c"}},
 		}
 	}
